@@ -180,7 +180,7 @@ CORE = {
     'C17': (['C17_Retention', 'C17_Refused', 'C03_Events'], []),
     'C15': (['C15_StaysOpen', 'C15_NoAutoComplete', 'C15_AtMostOnce', 'C15_Returned', 'C15_ChildInputs',
              'C15_ParentLast', 'C01_QuiescentOK', 'C05_NoDupSuccessor'], ['C15_ReturnMatches']),
-    'C13': (['C01_QuiescentOK', 'C03_Events', 'C04_Outcome', 'C08_AtMostOne'], ['C13_OnlyOwn', 'C13_DupRefused']),
+    'C13': (['C01_QuiescentOK', 'C03_Events', 'C04_Outcome', 'C08_AtMostOne', 'C11_Image', 'C05_NoDupSuccessor'], ['C13_OnlyOwn', 'C13_DupRefused']),
 }
 
 # which trace group a property's conformance leg uses (default: core)
